@@ -78,8 +78,9 @@ def supported(v):
 
 # (components of one, two and three digits: 10, 40, 100 read as text or as decimals are
 # other numbers than as integers)
-VERSION_GRID = [(a, b, c) for a in (4, 5, 6, 50) for b in (0, 1, 3, 4, 5, 6, 10, 40, 255)
-                for c in (0, 1, 2, 9, 10, 11, 100, 255)]
+VERSION_GRID = [(a, b, c) for a in (4, 5, 6, 50)
+                for b in (0, 1, 3, 4, 5, 6, 10, 40, 127, 128, 200, 255)
+                for c in (0, 1, 2, 9, 10, 11, 100, 127, 128, 200, 255)]
 MODES = ["boot", "signer", "uihb", "unknown", "other", "error"]
 ONB = [True, False, "error"]
 RETRIES = [0, 1, 2, 3, 255]
